@@ -65,6 +65,7 @@ Proof. unfold zlen. lia. Qed.
 Lemma dec_str_enc s r : zlen s < two32 -> dec_str (enc_str s ++ r) = Some (s, r).
 Proof.
   intros H. unfold dec_str, enc_str. rewrite <- app_assoc, uv by (pose proof (zlen_nonneg s); lia).
+  destruct (Z.ltb_spec (zlen (s ++ r)) (zlen s)) as [C|_]; [unfold zlen in C; rewrite app_length in C; lia|].
   unfold zlen. rewrite Nat2Z.id. apply take_app.
 Qed.
 
@@ -101,11 +102,19 @@ Proof.
   destruct c; reflexivity.
 Qed.
 
+Lemma cents_length (cs : list (Z * Z)) :
+  length (flat_map (fun c => le 4 (fst c) ++ le 4 (snd c)) cs) = (8 * length cs)%nat.
+Proof.
+  induction cs as [|c cs IH]; [reflexivity|]. cbn [flat_map]. rewrite !app_length, !le_length, IH. cbn [length]. lia.
+Qed.
+
 (* "percentile centroids … are decoded … into the same values" *)
 Lemma dec_cents_enc cs r : zlen cs < two32 -> Forall wf_cent cs ->
   dec_cents (enc_cents cs ++ r) = Some (cs, r).
 Proof.
   intros L F. unfold dec_cents, enc_cents. rewrite <- app_assoc, uv by (pose proof (zlen_nonneg cs); lia).
+  match goal with |- context [zlen ?x <? zlen cs] => destruct (Z.ltb_spec (zlen x) (zlen cs)) as [C|_] end;
+    [unfold zlen in C; rewrite app_length, cents_length in C; lia|].
   unfold zlen. rewrite Nat2Z.id.
   apply (rd_many_flat dec_cent (fun c => le 4 (fst c) ++ le 4 (snd c)) wf_cent); [apply dec_cent_enc | exact F].
 Qed.
@@ -136,6 +145,7 @@ Proof.
     change ((6 =? 4294967295) || (6 =? 0)) with false. cbv iota. cbn [app].
     change (0 =? 1) with false. cbv iota.
     rewrite rd4 by exact Wi.
+    rewrite Z.min_l by (unfold zlen; cbn [length]; lia).
     change (Z.to_nat (6 - 5)) with 1%nat. cbn [skipn app].
     unfold arg_value. change (1 =? 0) with false. cbv iota.
     rewrite rd4 by exact Wv. reflexivity.
@@ -146,7 +156,10 @@ Proof.
     destruct (Z.eqb_spec (zlen s + 2) 0); [lia|]. cbn [orb app].
     change (1 =? 1) with true. cbv iota.
     destruct (Z.ltb_spec (zlen s + 2) 2); [lia|].
-    replace (zlen s + 2 - 2) with (zlen s) by lia. unfold zlen. rewrite Nat2Z.id, take_app.
+    replace (zlen s + 2 - 2) with (zlen s) by lia. cbn [orb].
+    match goal with |- context [zlen ?x <? zlen s] => destruct (Z.ltb_spec (zlen x) (zlen s)) as [C|_] end;
+      [unfold zlen in C; rewrite app_length in C; lia|].
+    unfold zlen. rewrite Nat2Z.id, take_app.
     change (0 =? 0) with true. cbv iota.
     unfold arg_value. change (1 =? 0) with false. cbv iota. rewrite rd4 by exact Wv. reflexivity.
 Qed.
